@@ -17,8 +17,8 @@
                  duplicate-name retry; interchange level inference        -> ps_record, ps_scan, ps_walk
      pycdlib.py  _interchange_level_from_filename / _from_directory           -> ps_level_file / _dir
      dr.py       DirectoryRecord.parse (parent given)                         -> Codec.parse_dr (reused)
-                 the XA / Rock Ridge detection in the bytes after the name: both need >= 2 bytes
-                 there; such a record is outside the fragment                 -> PUnsupported 1
+                 the XA / Rock Ridge detection in the bytes after the name (14 bytes or more, or one
+                 of the Rock Ridge signatures): such a record is outside the fragment -> ps_outside, PUnsupported 1
      dr.py       __lt__, bisect.bisect_left (a real binary search), _add_child (check_overflow =
                  False), _recalculate_extents_and_offsets(index)              -> ps_lt, ps_bisect, ps_track
      dr.py       record() of a PARSED record (stored dr_len and len_fi)       -> ps_rec_bytes
@@ -227,6 +227,18 @@ Definition ps_link_gen (fixed : bool) (isz : Z) (st : pstate) (ext dl : Z) : nat
 
 Definition ps_link : Z -> pstate -> Z -> Z -> nat * Z * pstate := ps_link_gen true.
 
+(* the bytes after the identifier (and its pad): XARecord.parse gives up on fewer than 14 bytes; a Rock Ridge
+   record is recognised by one of 15 two-byte signatures.  Anything that could be either is outside the fragment *)
+Definition ps_rr_sigs : list (Z * Z) :=
+  [(83, 80); (82, 82); (67, 69); (80, 88); (69, 82); (69, 83); (80, 78); (83, 76); (78, 77); (67, 76);
+   (80, 76); (84, 70); (83, 70); (82, 69); (65, 76)].   (* SP RR CE PX ER ES PN SL NM CL PL TF SF RE AL *)
+Definition ps_outside (su : list Z) : bool :=
+  (14 <=? zlen su)
+  || match su with
+     | a :: b :: _ => existsb (fun s => (fst s =? a) && (snd s =? b)) ps_rr_sigs
+     | _ => false
+     end.
+
 (* ---- one record ------------------------------------------------------------------------------------ *)
 
 (* [ptr]: the extents of the records of the L path table (keys of extent_to_ptr);
@@ -237,7 +249,7 @@ Definition ps_record (ptr : list Z) (isz : Z) (sl : pstate * option (list Z)) (r
   match parse_dr record with
   | None => PInvalid 2
   | Some r =>
-      if 2 <=? zlen (sysuse r) then PUnsupported 1 else
+      if ps_outside (sysuse r) then PUnsupported 1 else
       let is_dir := ps_is_dir r in
       let dots := ps_is_dot r || ps_is_dotdot r in
       let '(ino, dlen1, st1) :=
@@ -302,7 +314,9 @@ Definition ps_end_dir (st : pstate) : pstate :=
   mk_pstate (s_dirs st ++ [s_cur st]) [] (s_queue st) (s_inodes st) (s_e2i st) (s_seen st)
             (s_level st) (s_lastbyte st).
 
-Fixpoint ps_walk (fuel : nat) (img : image) (ptr : list Z) (isz : Z) (st : pstate) : presult pstate :=
+(* [rd ext len]: self._seek_to_extent(ext); cdfp.read(len); None = the medium is not described there *)
+Fixpoint ps_walk (fuel : nat) (rd : Z -> Z -> option (list Z)) (ptr : list Z) (isz : Z) (st : pstate)
+  : presult pstate :=
   match fuel with
   | O => PFuel
   | S f =>
@@ -310,12 +324,12 @@ Fixpoint ps_walk (fuel : nat) (img : image) (ptr : list Z) (isz : Z) (st : pstat
       | [] => POk st
       | (ext, len) :: q =>
           if ps_mem ext (s_seen st) then PInvalid 7 else        (* 'Directory loop on the ISO' *)
-          match ms_img_read img ext len with
+          match rd ext len with
           | None => PUnsupported 3                              (* blocks the image does not describe *)
           | Some data =>
               match ps_scan (ps_record ptr isz) (S (length data)) data 0 len
                             (ps_begin_dir st q ext, None) with
-              | POk (st', _) => ps_walk f img ptr isz (ps_end_dir st')
+              | POk (st', _) => ps_walk f rd ptr isz (ps_end_dir st')
               | PInvalid w => PInvalid w
               | PUnsupported w => PUnsupported w
               | PFuel => PFuel
@@ -334,17 +348,31 @@ Definition ps_init (root_ext root_len : Z) : pstate :=
   mk_pstate [] [] [(root_ext, root_len)] [] [] [] 1 0.
 
 (* root_dir_record.set_ptr(path_table_records[0]): IndexError on an empty path table *)
-Definition parse (fuel : nat) (img : image) (ptr : list Z) (isz root_ext root_len : Z) : presult pgraph :=
+Definition ps_parse (fuel : nat) (rd : Z -> Z -> option (list Z)) (ptr : list Z) (isz root_ext root_len : Z)
+  : presult pgraph :=
   match ptr with
   | [] => PInvalid 8
   | _ =>
-      match ps_walk fuel img ptr isz (ps_init root_ext root_len) with
+      match ps_walk fuel rd ptr isz (ps_init root_ext root_len) with
       | POk st => POk (ps_graph st)
       | PInvalid w => PInvalid w
       | PUnsupported w => PUnsupported w
       | PFuel => PFuel
       end
   end.
+
+(* the medium given as a finite map of directory extents (Master.image) *)
+Definition parse (fuel : nat) (img : image) (ptr : list Z) (isz root_ext root_len : Z) : presult pgraph :=
+  ps_parse fuel (ms_img_read img) ptr isz root_ext root_len.
+
+(* the medium given as the WHOLE file: seek(ext * 2048) and read(len) return what is there, fewer bytes (or
+   none) at the end of the file.  Extents come out of struct.unpack('<L'): a negative one cannot occur. *)
+Definition ps_file_read (bytes : list Z) (ext len : Z) : option (list Z) :=
+  if (ext <? 0) || (len <? 0) then None
+  else Some (firstn (Z.to_nat len) (skipn (Z.to_nat (ext * BS)) bytes)).
+
+Definition parse_file (fuel : nat) (bytes : list Z) (ptr : list Z) (root_ext root_len : Z) : presult pgraph :=
+  ps_parse fuel (ps_file_read bytes) ptr (zlen bytes) root_ext root_len.
 
 (* ---- the writer's object graph, numbered breadth first ---------------------------------------------- *)
 
